@@ -193,6 +193,7 @@ func snippetProblem(s string) string {
 			return "gap-in-stops"
 		}
 	}
+	// (the run need not start at 1: label candidates number the labels that follow the completed one from 2)
 	return ""
 }
 
